@@ -11,6 +11,7 @@ import (
 	"time"
 
 	"github.com/ajitpratap0/GoSQLX/pkg/gosqlx"
+	"github.com/ajitpratap0/GoSQLX/pkg/sql/ast"
 )
 
 type extractResult struct {
@@ -25,11 +26,20 @@ type extractResult struct {
 	Functions []string    `json:"functions"`
 	QTables   [][3]string `json:"qtables"`
 	QColumns  [][3]string `json:"qcolumns"`
-	Dups      []string    `json:"dups,omitempty"`     // which result contained a duplicate
-	MetaDiff  []string    `json:"metadiff,omitempty"` // ExtractMetadata field differing from the single function
-	MaxNs     int64       `json:"max_ns"`             // slowest of the extraction calls
-	TreeSame  bool        `json:"tree_same"`          // canonical dump identical before / after all calls
+	Dups      []string    `json:"dups,omitempty"`      // which result contained a duplicate
+	MetaDiff  []string    `json:"metadiff,omitempty"`  // ExtractMetadata field differing from the single function
+	MaxNs     int64       `json:"max_ns"`              // slowest of the extraction calls
+	TreeSame  bool        `json:"tree_same"`           // canonical dump identical before / after all calls
+	TimedOut  bool        `json:"timed_out,omitempty"` // the calls did not return within extractDeadline (abandoned)
 }
+
+// extractDeadline bounds the extraction calls of ONE input.  A traversal that re-visits sub-trees (the pinned double
+// recursion) needs 2^k visits on a chain of k set operations: it never returns on the flat chains.  The calls run in a
+// goroutine of their own; when they miss the deadline the input is reported with timed_out (max_ns = the deadline), and
+// every later input is reported as skipped, because the abandoned goroutine keeps a core busy until the process exits.
+const extractDeadline = 20 * time.Second
+
+var extractAbandoned bool
 
 func hasDup(l []string) bool {
 	m := map[string]bool{}
@@ -87,6 +97,10 @@ func sameSet(a, b []string) bool {
 
 func runExtract(in *qinput) extractResult {
 	res := extractResult{ID: in.ID}
+	if extractAbandoned {
+		res.Err = "skipped: an earlier input exceeded the extraction deadline"
+		return res
+	}
 	tree, perr := qparse(in)
 	if tree == nil {
 		res.Err = perr
@@ -98,7 +112,31 @@ func runExtract(in *qinput) extractResult {
 		res.Tree, res.Nodes = qdump(tree)
 		before = dump(tree)
 	}
-	res.Panic = guarded(func() {
+	done := make(chan extractResult, 1)
+	go func(res extractResult) {
+		res.Panic = extractCalls(tree, &res)
+		done <- res
+	}(res)
+	select {
+	case res = <-done:
+	case <-time.After(extractDeadline):
+		extractAbandoned = true
+		res.TimedOut, res.MaxNs, res.TreeSame = true, extractDeadline.Nanoseconds(), true
+		res.Tables, res.Columns, res.Functions = []string{}, []string{}, []string{}
+		res.QTables, res.QColumns = [][3]string{}, [][3]string{}
+		return res
+	}
+	if !in.NoDump {
+		res.TreeSame = dump(tree) == before
+	} else {
+		res.TreeSame = true
+	}
+	return res
+}
+
+// extractCalls runs the six extraction functions on the tree and fills res; returns the panic text, if any.
+func extractCalls(tree *ast.AST, res *extractResult) string {
+	return guarded(func() {
 		timed := func(f func()) {
 			t0 := time.Now()
 			f()
@@ -156,12 +194,6 @@ func runExtract(in *qinput) extractResult {
 			res.MetaDiff = append(res.MetaDiff, "nil")
 		}
 	})
-	if !in.NoDump {
-		res.TreeSame = dump(tree) == before
-	} else {
-		res.TreeSame = true
-	}
-	return res
 }
 
 func init() {
